@@ -89,11 +89,79 @@ func c08Script(h *ipamHist) {
 	}
 }
 
+type c08DirectedCase struct {
+	name string
+	cfg  ipamCfg
+	run  func(h *ipamHist)
+}
+
+// c08Directed: configuration corners the thorough tier's random histories ran into, made certain.
+func c08Directed() []c08DirectedCase {
+	var out []c08DirectedCase
+	// an RDMA pod came and went: its interface keeps idle addresses no normal pod can use, and the band has no slack
+	for _, dual := range []bool{false, true} {
+		for _, mm := range [][2]int{{2, 2}, {1, 1}, {3, 4}} {
+			out = append(out, c08DirectedCase{
+				name: fmt.Sprintf("erdma-idle/dual%v/min%d-max%d", dual, mm[0], mm[1]),
+				cfg:  ipamCfg{V4: true, V6: dual, ERDMA: true, Adapters: 5, V4Per: 5, V6Per: 5, MinPool: mm[0], MaxPool: mm[1], Pods: 6, Initial: "empty", VSWFree: 5000},
+				run: func(h *ipamHist) {
+					var pods []*ipamPod
+					for i := 0; i < 4; i++ {
+						p := h.newPod(i, i >= 2)
+						h.writePod(p)
+						pods = append(pods, p)
+					}
+					for i := 0; i < 6; i++ {
+						_, _ = h.reconcile()
+					}
+					for _, p := range pods {
+						h.cniAdd(p)
+						if p.Sandbox {
+							h.writePod(p)
+						}
+					}
+					for _, p := range pods[2:] {
+						if p.Sandbox {
+							h.cniDel(p, p.Container)
+						}
+						h.flush()
+						h.deletePodObj(p)
+					}
+					for i := 0; i < 4; i++ {
+						_, _ = h.reconcile()
+					}
+				},
+			})
+		}
+	}
+	// every slot taken, one trunk more than the flavor has, an RDMA pod waits: there is no room for its interface
+	for _, dual := range []bool{false, true} {
+		out = append(out, c08DirectedCase{
+			name: fmt.Sprintf("surplus-trunk/dual%v", dual),
+			cfg:  ipamCfg{V4: true, V6: dual, Trunk: true, ERDMA: true, Adapters: 5, V4Per: 4, V6Per: 4, MinPool: 0, MaxPool: 3, Pods: 4, Initial: "surplus-trunk", VSWFree: 5000},
+			run: func(h *ipamHist) {
+				for i := 0; i < 3; i++ {
+					h.writePod(h.newPod(i, i == 0))
+				}
+				for i := 0; i < 5; i++ {
+					_, _ = h.reconcile()
+				}
+			},
+		})
+	}
+	return out
+}
+
 func runC08(c *ctxT) {
 	r := c.R
 	r.Rule = "Closed-loop IPAM histories (real multi-ip ReconcileNode + real agent on simulated API server and cloud). (1) call-time guard: no CreateNetworkInterface beyond the interface slots the flavor leaves, no create/assign beyond the per-interface address limits (judged against the smaller of cloud truth and stored record, so that a lost status write or out-of-band drift is not blamed on the controller). (2) after each history faults stop, a full sync is forced and the controller must reach, within 40 reconciles, two consecutive rounds without cloud mutation and without record change; there record == cloud for interfaces and addresses, no interface the controller created (and learned the id of) is outside the record, every eligible pod is bound in every enabled family on one interface, idle addresses are within [min,max] wherever limits leave room. (3) single-fault enumeration of a scripted scenario: every cloud-call position x 7 fault kinds, adjacent double faults (step fails and so does the call after it) at every position, every Node-record write position x {conflict, lost}, for IPv4 / dual-stack x trunk. distinct = config class x fault placement"
 	r.Assumptions = []string{"cloud simulated at the register.Interface boundary (above SDK retries): a create that fails after its effect without returning the id cannot be rolled back by the controller and is not counted as a leak", "bounded convergence: 40 reconciles after faults stop", "pods that already report an address that is gone, and pods holding one family while waiting for the other on a full interface, are counted, not judged"}
 
+	only := -1
+	if v := os.Getenv("VERIF_ONLY_HISTORY"); v != "" {
+		fmt.Sscan(v, &only)
+		logf.SetLogger(funcr.New(func(prefix, args string) { fmt.Println("LOG", prefix, args) }, funcr.Options{Verbosity: 5}))
+	}
 	// ---- (3) enumeration ----
 	var cases []c08Case
 	for _, dual := range []bool{false, true} {
@@ -129,11 +197,6 @@ func runC08(c *ctxT) {
 	sem := make(chan struct{}, 64)
 	done := make(chan struct{}, len(cases))
 	mine := 0
-	only := -1
-	if v := os.Getenv("VERIF_ONLY_HISTORY"); v != "" {
-		fmt.Sscan(v, &only)
-		logf.SetLogger(funcr.New(func(prefix, args string) { fmt.Println("LOG", prefix, args) }, funcr.Options{Verbosity: 5}))
-	}
 	for i, cs := range cases {
 		if i%max(c.NBatch, 1) != c.Batch || (only >= 0 && 900000+i != only) {
 			continue
@@ -175,6 +238,22 @@ func runC08(c *ctxT) {
 	}
 	for i := 0; i < mine; i++ {
 		<-done
+	}
+
+	// ---- directed configuration corners (fault-free) ----
+	for i, dc := range c08Directed() {
+		if i%max(c.NBatch, 1) != c.Batch || (only >= 0 && 950000+i != only) {
+			continue
+		}
+		hid := 950000 + i
+		fmt.Printf("CASE C08 directed %d %s cfg %+v\n", hid, dc.name, dc.cfg)
+		h := newIpamHist(c, "C08", hid, dc.cfg, int64(5000+i))
+		dc.run(h)
+		c08Converge(h)
+		r.Eval(1)
+		r.Count("directed_corner_cases", 1)
+		r.DistinctKey("directed/" + dc.name)
+		h.finish(r, true)
 	}
 
 	// ---- (1)+(2) random histories ----
@@ -280,6 +359,33 @@ func c08Converge(h *ipamHist) {
 		}
 		return n
 	}
+	unpairedOf := func(cr *v1beta1.Node) int {
+		unpaired := 0
+		if cr == nil {
+			return 0
+		}
+		for _, e := range cr.Status.NetworkInterfaces {
+			if e.Status != "InUse" {
+				continue
+			}
+			i4, i6 := 0, 0
+			for _, v := range e.IPv4 {
+				if v.PodID == "" && v.Status == v1beta1.IPStatusValid {
+					i4++
+				}
+			}
+			for _, v := range e.IPv6 {
+				if v.PodID == "" && v.Status == v1beta1.IPStatusValid {
+					i6++
+				}
+			}
+			if i4 != i6 {
+				unpaired++
+			}
+		}
+		return unpaired
+	}
+	var unpairedHist []int
 	stable, rounds := 0, 0
 	for rounds < 40 && (stable < 2 || waitingFresh() > 0) {
 		calls := h.cloud.MutatingCalls()
@@ -290,6 +396,7 @@ func c08Converge(h *ipamHist) {
 		rounds++
 		m.mu.Lock()
 		after := c08RecSig(m.lastCR)
+		unpairedHist = append(unpairedHist, unpairedOf(m.lastCR))
 		m.mu.Unlock()
 		if h.cloud.MutatingCalls() == calls && reflect.DeepEqual(before, after) {
 			stable++
@@ -306,29 +413,12 @@ func c08Converge(h *ipamHist) {
 		// interface whose vSwitch is exhausted, ...). The pool sizes by per-family totals, a dual-stack pod needs
 		// a pair on one interface: what MinPoolSize/waiting pods ask for and what MaxPoolSize trims can then
 		// disagree forever. Oscillations without that signature are reported under the plain site.
-		if h.cfg.V4 && h.cfg.V6 && m.lastCR != nil {
-			unpaired := 0
-			for _, e := range m.lastCR.Status.NetworkInterfaces {
-				if e.Status != "InUse" {
-					continue
+		// (judged over the last four rounds: the oscillation passes through states with and without such addresses)
+		if h.cfg.V4 && h.cfg.V6 {
+			for _, u := range unpairedHist[max(0, len(unpairedHist)-4):] {
+				if u > 0 {
+					site = "40-rounds/dual-stack/unpaired-idle"
 				}
-				i4, i6 := 0, 0
-				for _, v := range e.IPv4 {
-					if v.PodID == "" && v.Status == v1beta1.IPStatusValid {
-						i4++
-					}
-				}
-				for _, v := range e.IPv6 {
-					if v.PodID == "" && v.Status == v1beta1.IPStatusValid {
-						i6++
-					}
-				}
-				if i4 != i6 {
-					unpaired++
-				}
-			}
-			if unpaired > 0 {
-				site = "40-rounds/dual-stack/unpaired-idle"
 			}
 		}
 		m.violate("C08", "C08.no-fixed-point", site, fmt.Sprintf("after faults stopped the controller still mutates cloud or record in round %d (config %+v)", rounds, h.cfg))
@@ -562,10 +652,14 @@ func c08Converge(h *ipamHist) {
 	}
 
 	// ---- pool band ----
+	// On a node with ERDMA the product has two notions of "idle": adjustPool counts every idle address, addIP keeps
+	// MinPoolSize on the interfaces normal pods can use. The property names one band, so each side is judged only
+	// where both notions agree: above-max on the addresses normal pods can use (then all idle exceed it too),
+	// below-min on all idle addresses (then the usable ones fall short too).
 	main := fams[0]
 	idleMain, trimmable := 0, 0
 	for _, e := range rec {
-		if e.Status != "InUse" {
+		if e.Status != "InUse" || (isRdma(e) && cfg.ERDMA) {
 			continue
 		}
 		for _, v := range setOf(e, main) {
@@ -583,13 +677,16 @@ func c08Converge(h *ipamHist) {
 	for _, fam := range fams {
 		idle, room := 0, freeStd+freeTrunk > 0
 		for _, e := range rec {
-			if e.Status != "InUse" || (isRdma(e) && cfg.ERDMA) {
+			if e.Status != "InUse" {
 				continue
 			}
 			for _, v := range setOf(e, fam) {
 				if v.PodID == "" && v.Status == v1beta1.IPStatusValid {
 					idle++
 				}
+			}
+			if isRdma(e) && cfg.ERDMA {
+				continue
 			}
 			if len(setOf(e, fam)) < per(fam) && canGrow(e) {
 				room = true
